@@ -322,6 +322,8 @@ def gen_request(rng, w, p, names):
             props["children"] = True
         if rng.random() < 0.3:
             props["recursive"] = True
+        if rng.random() < p.get("childsel", 0.0):
+            props["childsel"] = rng.randint(0, 2)       # one child of the addressed worker (needs pid; without: refused)
     elif cmd == "rm":
         props = {"name": name, "waiting": waiting, "nostop": rng.random() < 0.3}
     elif cmd == "quit":
